@@ -1,0 +1,111 @@
+//go:build verif
+
+// Contracts for property C03 (state-machine slice): the incremental EdgeCrosser keeps its cached orientation
+// either unknown (0) or correct, and every call order (chained, restarted, mixed) returns exactly the
+// stateless four-orientation value. The orientation predicate is used as a deterministic oracle
+// (RobustSign, C02); the tangent early exit is mirrored, its error bound is numerical and not decided.
+// Exact IEEE comparisons (fpcmp). Comment-only; build tag verif.
+
+package s2
+
+//@ import "math"
+
+//@ property C03
+
+// ---- the orientation oracle and the stages that must agree with it (numerical facts, assumed)
+
+//@ func RobustSign(a, b, c Point) Direction
+//@   assumed "orientation oracle (exact sign with symbolic perturbation, property C02): deterministic, -1/0/+1, zero when two arguments are equal"
+//@   pure
+//@   ensures [range] result == -1 || result == 0 || result == 1
+//@   ensures [degenerate] a == b || b == c || a == c ==> result == 0
+//@   ensures [rotation] result == RobustSign(b, c, a) && result == RobustSign(c, a, b)
+//@   ensures [swap] result == -RobustSign(c, b, a) && result == -RobustSign(b, a, c) && result == -RobustSign(a, c, b)
+
+//@ func triageSign(a, b, c Point) Direction
+//@   assumed "numerical: the fast determinant test is either undecided (0) or agrees with the oracle (error bound maxDeterminantError)"
+//@   pure
+//@   ensures result == 0 || result == RobustSign(a, b, c)
+
+//@ func expensiveSign(a, b, c Point) Direction
+//@   assumed "numerical: the stable/exact stages return the oracle value"
+//@   pure
+//@   ensures result == RobustSign(a, b, c)
+
+//@ func VertexCrossing(a, b, c, d Point) bool
+//@   assumed "shared-vertex rule, a deterministic function of the four points (its case analysis is decided separately)"
+//@   pure
+
+// ---- specification
+
+// the cached orientation of triangle ACB is unknown or right
+//@ spec func vcCrosserInv(e *EdgeCrosser) bool = e != nil && (e.acb == 0 || e.acb == -RobustSign(e.a, e.b, e.c))
+
+// the tangent early exit, exactly as computed from the crosser's precomputed tangents
+//@ spec func vcTangentOut(e *EdgeCrosser, c, d Point) bool =
+//@    (c.Dot(e.aTangent.Vector) > (1.5+1/math.Sqrt(3))*dblEpsilon && d.Dot(e.aTangent.Vector) > (1.5+1/math.Sqrt(3))*dblEpsilon) ||
+//@    (c.Dot(e.bTangent.Vector) > (1.5+1/math.Sqrt(3))*dblEpsilon && d.Dot(e.bTangent.Vector) > (1.5+1/math.Sqrt(3))*dblEpsilon)
+
+// the stateless answer for edge AB (the crosser's) against edge CD
+//@ spec func vcStateless(e *EdgeCrosser, c, d Point) Crossing = vcIf(vcSameSide(e, c, d), DoNotCross,
+//@    vcIf(vcTangentOut(e, c, d), DoNotCross,
+//@    vcIf(e.a == c || e.a == d || e.b == c || e.b == d, MaybeCross,
+//@    vcIf(e.a == e.b || c == d, DoNotCross,
+//@    vcIf(-RobustSign(e.a, e.b, c) == RobustSign(e.a, e.b, d) && RobustSign(e.a, e.b, d) == -RobustSign(c, d, e.b) && RobustSign(e.a, e.b, d) == RobustSign(c, d, e.a), Cross, DoNotCross)))))
+// C and D strictly on the same side of AB: no crossing whatever the other tests say (they agree: see lemma)
+//@ spec func vcSameSide(e *EdgeCrosser, c, d Point) bool = RobustSign(e.a, e.b, c) == RobustSign(e.a, e.b, d) && RobustSign(e.a, e.b, d) != 0
+
+// when C and D are strictly on the same side, the four-orientation criterion says DoNotCross as well
+//@ lemma sameSideIsDoNotCross(e *EdgeCrosser, c Point, d Point)
+//@   fpcmp
+//@   requires e != nil && vcSameSide(e, c, d) && !vcTangentOut(e, c, d)
+//@   ensures [no-shared-vertex] !(e.a == c || e.a == d || e.b == c || e.b == d)
+//@   ensures [criterion] !(-RobustSign(e.a, e.b, c) == RobustSign(e.a, e.b, d))
+
+//@ func (e *EdgeCrosser) RestartAt(c Point)
+//@   fpcmp
+//@   requires e != nil
+//@   modifies e.c, e.acb
+//@   ensures [inv] vcCrosserInv(e) && vcSame(e.c, c)
+
+//@ func (e *EdgeCrosser) ChainCrossingSign(d Point) Crossing
+//@   fpcmp
+//@   requires vcCrosserInv(e)
+//@   modifies e.c, e.acb
+//@   ensures [stateless] result == vcStateless(e, old(e.c), d)
+//@   ensures [inv] vcCrosserInv(e) && vcSame(e.c, d)
+
+//@ func (e *EdgeCrosser) crossingSign(d Point, bda Direction) Crossing
+//@   fpcmp
+//@   requires vcCrosserInv(e) && (bda == 0 || bda == RobustSign(e.a, e.b, d)) && !(e.acb == -bda && bda != 0)
+//@   modifies e.c, e.acb
+//@   ensures [stateless] result == vcStateless(e, old(e.c), d)
+//@   ensures [inv] vcCrosserInv(e) && vcSame(e.c, d)
+
+//@ func (e *EdgeCrosser) CrossingSign(c, d Point) Crossing
+//@   fpcmp
+//@   requires vcCrosserInv(e)
+//@   modifies e.c, e.acb
+//@   ensures [history-independent] (c != old(e.c) ==> result == vcStateless(e, c, d)) && (c == old(e.c) ==> result == vcStateless(e, old(e.c), d))
+//@   ensures [inv] vcCrosserInv(e) && vcSame(e.c, d)
+
+//@ func (e *EdgeCrosser) EdgeOrVertexChainCrossing(d Point) bool
+//@   fpcmp
+//@   requires vcCrosserInv(e)
+//@   modifies e.c, e.acb
+//@   ensures [stateless] result == (vcStateless(e, old(e.c), d) == Cross || (vcStateless(e, old(e.c), d) == MaybeCross && VertexCrossing(e.a, e.b, old(e.c), d)))
+//@   ensures [inv] vcCrosserInv(e) && vcSame(e.c, d)
+
+//@ func NewChainEdgeCrosser(a, b, c Point) *EdgeCrosser
+//@   fpcmp
+//@   ensures [inv] vcCrosserInv(result) && vcSame(result.a, a) && vcSame(result.b, b) && vcSame(result.c, c)
+
+// the four-orientation criterion, as a function of the four points
+//@ spec func vcCriterion(a, b, c, d Point) bool = -RobustSign(a, b, c) == RobustSign(a, b, d) && RobustSign(a, b, d) == -RobustSign(c, d, b) && RobustSign(a, b, d) == RobustSign(c, d, a)
+
+// ... is unchanged by reversing either edge or swapping the two edges (from the rotation/swap laws of the oracle)
+//@ lemma criterionSymmetric(a Point, b Point, c Point, d Point)
+//@   fpcmp
+//@   ensures [reverse-ab] vcCriterion(a, b, c, d) == vcCriterion(b, a, c, d)
+//@   ensures [reverse-cd] vcCriterion(a, b, c, d) == vcCriterion(a, b, d, c)
+//@   ensures [swap-edges] vcCriterion(a, b, c, d) == vcCriterion(c, d, a, b)
